@@ -151,7 +151,8 @@ def run(ctx):
     check_pair(ctx, R1, "circuit", f"{SER}:_circuit_to_dict", f"{SER}:circuit_from_dict", "dict_")
     check_pair(ctx, R1, "circuitset", f"{SER}:_circuitset_to_dict", f"{SER}:circuitset_from_dict", "dict_")
     check_pair(ctx, R1, "gate_operation", f"{SER}:_gate_operation_to_dict", f"{SER}:_gate_operation_from_dict", "dict_", allow_unread={("type",): "only one operation kind is serialised"})
-    check_pair(ctx, R1, "basic-gate/builtin-reader", f"{SER}:_basic_gate_to_dict", f"{SER}:_builtin_gate_from_dict", "dict_")
+    check_pair(ctx, R1, "basic-gate/builtin-reader", f"{SER}:_basic_gate_to_dict", f"{SER}:_builtin_gate_from_dict", "dict_",
+               allow_gated={("free_symbols",): "a MatrixFactoryGate's free symbols are computed from its params (C06-D4 checks free_symbols derives from self.params): no params, no free symbols, so free_symbols is never written without params"})
     check_pair(ctx, R1, "basic-gate/custom-reader", f"{SER}:_basic_gate_to_dict", f"{SER}:_custom_gate_instance_from_dict", "dict_")
     check_pair(ctx, R1, "custom-definition", f"{SER}:_custom_gate_def_to_dict", f"{SER}:custom_gate_def_from_dict", "dict_")
     # ------------------------------------------------------------------ wrappers, per reader branch
